@@ -274,7 +274,10 @@ def run(tier: str, seed: int) -> int:
                 ("gen-diag-T3", consts({"diag"}, ALL, 3, (8,), (0, 4, 8)), ["direct"], 8, 16),
                 ("gen-lateral-T2", consts({"full"}, ALL, 2, (8,), (0, 4, 8), zerodiag=True), ["lateral"], 8, 16),
                 ("gen-offgrid-T2", consts({"full"}, {"delta", "dplus", "sexp"}, 2, (6,), (0, 2, 6), I=2, O=1,
-                                          smodes=("previous", "nearest")), ["dense"], 8, 12)]
+                                          smodes=("previous", "nearest")), ["dense"], 8, 12),
+                # one-to-one connection whose learned delays are all shorter than one step (and off the grid)
+                ("gen-offgrid-diag-T2", consts({"diag"}, {"delta", "sexp"}, 2, (6,), (1, 2, 3), smodes=("previous", "nearest")),
+                 ["direct"], 8, 16)]
     else:
         gens = [("gen-full-2x2-T2", consts({"full"}, ALL, 2, (8,), (0, 8)), ["dense", "conv"], 30, None),
                 ("gen-full-2x2-mid-T2", consts({"full"}, {"sexp"}, 2, (8,), (0, 4, 8)), ["dense", "conv"], 30, None),
@@ -283,6 +286,8 @@ def run(tier: str, seed: int) -> int:
                 ("gen-lateral-T3", consts({"full"}, ALL, 3, (8,), (0, 4, 8), zerodiag=True), ["lateral"], 100, None),
                 ("gen-offgrid-T2", consts({"full"}, ALL, 2, (6,), (0, 2, 5, 6), I=2, O=1,
                                           smodes=("previous", "nearest")), ["dense", "conv"], 30, None),
+                ("gen-offgrid-diag-T2", consts({"diag"}, ALL, 2, (6,), (1, 2, 3, 5), smodes=("previous", "nearest")),
+                 ["direct"], 30, None),
                 ("gen-undelayed-T3", consts({"full", "diag"}, ALL, 3, (0, 8), (0,), delayed=(True, False)),
                  ["dense", "direct", "conv"], 60, None)]
     pool = ThreadPoolExecutor(max_workers=6)
